@@ -76,7 +76,7 @@ def classify(case, what):
 
 
 def eval_case(case, fresh=True):
-    if fresh or case['k'] in ('contain', 'src_contain'):
+    if fresh or case['k'] in ('contain', 'src_contain', 'src_seq'):
         impl.fresh(False)      # freshly imported decoder modules: no parser cache carried over
         impl._current['registry'] = False
     else:
@@ -95,6 +95,8 @@ def eval_case(case, fresh=True):
             return _contain(case)
         if k == 'src_contain':
             return _src_contain(case)
+        if k == 'src_seq':
+            return _src_seq(case)
         raise KeyError(k)
     finally:
         imphook.uninstall()
@@ -325,6 +327,37 @@ def _contain(case):
     return out
 
 
+def _src_seq(case):
+    """One SRC parser serves a failing primary SRC, then a well-behaved secondary SRC and a well-behaved later PEL."""
+    out = []
+    creator = case['creator']
+    modname = 'srcparsers.%ssrc.%ssrc' % (creator.lower(), creator.lower())
+    imphook.install(serve_all=False, behaviour={modname: 'by-payload'})
+    LAST['nt'] = True
+
+    def src(t, sel, tag):
+        w = list(pelgen.SRC_DEFAULT_WORDS)
+        w[7] = (tag << 8) | BEH_BYTES[sel]
+        return {'t': t, 'ascii': 'B7001234'.ljust(32), 'words': w}
+    ok_pel = {'creator': creator, 'sections': [src('PS', 0, 0x77), SENT]}
+    ref = decode.parse(pelgen.encode_pel(pelgen.pel_from_spec(ok_pel)))
+    impl.fresh(False)
+    imphook.install(serve_all=False, behaviour={modname: 'by-payload'})
+    spec = {'creator': creator, 'sections': [src('PS', case['first'], 0x11), src('SS', 0, 0x22), SENT]}
+    r = decode.parse(pelgen.encode_pel(pelgen.pel_from_spec(spec)))
+    if r['kind'] != 'doc' or ref['kind'] != 'doc':
+        _bad(out, case, 'not-decoded', 'primary SRC parser behaviour %s: %s %s' % (BEH_NAMES[case['first']], r['kind'], r.get('msg')))
+        return out
+    if case['first'] != 0 and r['doc']['Primary SRC'].get('SRC Details') is not None:
+        _bad(out, case, 'src-details-from-failed-parser', 'Primary SRC shows SRC Details although the parser %s' % BEH_NAMES[case['first']])
+    if not isinstance(r['doc']['Secondary SRC'].get('SRC Details'), dict):
+        _bad(out, case, 'later-src-lost-parser', 'Secondary SRC (well-behaved) has no SRC Details after the primary SRC parser call %s' % BEH_NAMES[case['first']])
+    r2 = decode.parse(pelgen.encode_pel(pelgen.pel_from_spec(ok_pel)))
+    if r2['kind'] != 'doc' or r2['doc'] != ref['doc']:
+        _bad(out, case, 'later-pel-differs', 'a well-behaved PEL decoded after SRC parser behaviour %s differs from its fresh decode' % BEH_NAMES[case['first']])
+    return out
+
+
 def _src_contain(case):
     out = []
     beh = case['beh']
@@ -408,6 +441,9 @@ def run_chunk(chunk):
             for order in itertools.permutations(range(3)):
                 _do(res, {'k': 'contain', 'behs': [chunk['b0'], chunk['b1'], b2], 'order': list(order)}, step=11)
     elif k == 'src_contain':
+        for first in range(5):
+            for cr in ('B', 'x'):
+                _do(res, {'k': 'src_seq', 'first': first, 'creator': cr}, step=3)
         for beh in ('obj', 'raise', 'importerror', 'keyerror', 'none', 'null', 'empty', 'absent', 'import-raises'):
             for cr in ('B', 'x'):
                 _do(res, {'k': 'src_contain', 'beh': beh, 'creator': cr}, step=5)
